@@ -14,8 +14,9 @@ from __future__ import annotations
 def _attr_graphs_proto(node):
     """[(attribute name, index or None, GraphProto)] of a NodeProto, in attribute order."""
     out = []
+    names = [a.name for a in node.attribute]
     for a in node.attribute:
-        if a.ref_attr_name:
+        if a.ref_attr_name or names.count(a.name) > 1:  # a duplicated attribute name has no unique IR counterpart
             continue
         if a.HasField("g") and a.type == 5:  # GRAPH
             out.append((a.name, None, a.g))
@@ -37,8 +38,13 @@ def _attr_graphs_ir(ir, node):
     return out
 
 
-def check(model_proto, model):
-    """List of human-readable mismatches (empty = the wiring agrees)."""
+def check(model_proto, model, dangling=False):
+    """List of human-readable mismatches (empty = the wiring agrees).
+
+    dangling=True adds one rule for names that no scope defines: once a node of graph G consumes such a name directly,
+    the value standing for it is visible like a definition in G, so every later consumer of the name in G - and in graphs
+    nested in that node or in later nodes of G - must hold the very same Value object (a use that comes first inside a
+    nested graph makes no such promise: the library documents that it cannot know the right scope then)."""
     import onnx_ir as ir
 
     problems = []
@@ -78,7 +84,7 @@ def check(model_proto, model):
         return (paths.get(id(g), "<graph outside the model>"), v.name)
 
     def compare(gp, g, path, scopes, is_function=False):
-        scopes = scopes + [(path, defined_names(gp, is_function))]
+        scopes = scopes + [(path, defined_names(gp, is_function), {})]
         ir_nodes = list(g)
         if len(ir_nodes) != len(gp.node):
             return
@@ -94,9 +100,16 @@ def check(model_proto, model):
                     if v is None:
                         problems.append(f"{path}/node{k}.input[{j}]: {name!r} in the proto, None in the IR")
                         continue
-                    want = next((p for p, names in reversed(scopes) if name in names), None)
+                    want = next((p for p, names, _ in reversed(scopes) if name in names), None)
                     if want is None:
-                        continue  # dangling in the proto itself: nothing to compare with
+                        # dangling in the proto itself: no definition site to compare with
+                        if dangling:
+                            seen = next((d[name] for _, _, d in reversed(scopes) if name in d), None)
+                            if seen is None:
+                                scopes[-1][2][name] = (v, f"{path}/node{k}")
+                            elif seen[0] is not v:
+                                problems.append(f"{path}/node{k}.input[{j}]: undefined name {name!r} was given a value at {seen[1]} (visible here), but this input holds another Value object")
+                        continue
                     got = site_of(v)
                     if got != (want, name):
                         problems.append(f"{path}/node{k}.input[{j}]: name {name!r} is defined in {want} but the IR input is {got[1]!r} defined in {got[0]}")
